@@ -686,21 +686,31 @@ func (fr *Frame) havocLoc(env *Env, loc Expr, st *State) {
 			case "$allof":
 				name := l.Args[0].(*EIdent).Name
 				if strings.HasPrefix(name, "elems ") {
-					// all(elems T): every slice/array element cell holding a T (in-place appends into lists whose
-					// backing arrays cannot be named)
+					// all(elems T): every slice/array element cell holding a T, leaf by leaf for struct element
+					// types (in-place appends into lists whose backing arrays cannot be named)
 					ty := g.W.resolveType(env.pkg, strings.TrimSpace(name[len("elems "):]), g)
-					if _, isS := isStruct(ty.G); isS {
-						g.fail("modifies all(%s): struct element type", name)
-					}
-					key, es := g.heapKeyT(ty.G), g.sortOf(ty.G)
-					old := g.heap(st, key, es)
-					nh := g.sc.Fresh(key, old.Sort)
-					g.heapWF(nh.S, es, g.curBase, false)
-					g.sc.Assume(fmt.Sprintf("(forall ((r Ref)) (! (or ((_ is Elem) r) (= (select %s r) (select %s r))) :pattern ((select %s r))))", nh.S, old.S, nh.S))
-					st.heaps[key] = nh
-					g.logWholeWrite(key, es, "shape:")
-					if g.frec != nil {
-						*g.frec = append(*g.frec, frameW{key, "((_ is Elem) r)"})
+					keys, paths, sorts := g.leafGroups(ty.G)
+					for _, key := range keys {
+						es := sorts[key]
+						old := g.heap(st, key, es)
+						nh := g.sc.Fresh(key, old.Sort)
+						g.heapWF(nh.S, es, g.curBase, false)
+						var preds []string
+						for _, path := range paths[key] {
+							sh, _ := addrShape(path("(Elem a k)"))
+							preds = append(preds, shapePred("r", sh))
+							g.logWholeWrite(key, es, "shape:"+sh)
+						}
+						g.sc.Assume(fmt.Sprintf("(forall ((r Ref)) (! (or %s (= (select %s r) (select %s r))) :pattern ((select %s r))))", strings.Join(preds, " "), nh.S, old.S, nh.S))
+						st.heaps[key] = nh
+						if g.frec != nil {
+							for _, p := range preds {
+								*g.frec = append(*g.frec, frameW{key, p})
+							}
+						}
+						if key == "H_Int_uint8" {
+							g.bytesFrame(nh.S, old.S, "false")
+						}
 					}
 					return
 				}
